@@ -22,8 +22,10 @@ func runC05(r *engine.Run) {
 	r.Rule("AGREE-roundkey", "uint64ToBytes (writer) and bytesToUint64 (reader) use the same, big-endian byte order (the early break of the prune iteration relies on ascending key order)")
 	r.Rule("WHO-livedelete", "see C04: a node the rebuilt trie still references is never handed to deleteNode (it would be recorded dead while reachable)")
 	r.Rule("DOM-samekey", "see C04: an unchanged re-write is not reported to the change collector (its hash would enter the dead set while live)")
+	r.Rule("FRESH-deadlist", "the sync-supplied dead list the trie keeps (deleteNodes) never aliases an argument: every store into the field is nil, newly made, or an append whose base is the field itself")
 	r.Rule("DOM-recordwritten", "recording a round's dead nodes replaces the round's record: every return of saveDeadNodes is the result of the PutCF on the dead-nodes column family or an error that is non-nil on that path, and every return of RecordDeadNodes is the result of saveDeadNodes or such an error (no success shortcut, e.g. for an empty set, that would leave an abandoned execution's record in place)")
 	r.Rule("DEP-recordonly", "in RecordDeadNodes the record object is filled only by map stores whose keys derive from the nodes argument and is handed only to saveDeadNodes: the record of a round is exactly what this execution of the round reported (no merge with an earlier record of the same round)")
+	r.Rule("AGREE-nostamp", "see C03: mergeChanges installs the nodes of the child's change set without re-stamping them (the installer it calls in the replay loop sets no origin/version on the node): a node the child took over from another version keeps the hash the child's root refers to, and the donor store's object is not written")
 	r.Rule("DOM-mergeall", "see C03: a change skipped by mergeChanges is never taken out of the dead set again (AddChange is what revives a re-created node)")
 	r.NotDec = append(r.NotDec, "reachability of recorded nodes from later roots (graph property of runtime content)")
 	domCancel(r)
@@ -35,6 +37,7 @@ func runC05(r *engine.Run) {
 	domSameKey(r, "DOM-samekey")
 	depRecordOnly(r, "DEP-recordonly")
 	domRecordWritten(r, "DOM-recordwritten")
+	freshDeadList(r, "FRESH-deadlist")
 	domMergeAll(r, "DOM-mergeall")
 }
 
@@ -497,5 +500,71 @@ func domRecordWritten(r *engine.Run, rule string) {
 	}
 	if n < 3 {
 		r.Anchor(rule, fmt.Errorf("unresolved anchor: only %d returns of RecordDeadNodes/saveDeadNodes", n))
+	}
+}
+
+// freshDeadList: MergeDB is handed the dead nodes of a synced state change; the
+// trie keeps them (deleteNodes) and GetDeletes reports them as the round's dead
+// set. The list has to be the trie's own: a caller that refills one scratch
+// slice per message (two candidate blocks of a round applied before
+// finalisation) would otherwise rewrite the recorded dead set of the first
+// block with the second block's nodes, and the prune deletes live nodes.
+//
+// Rule: every store into the deleteNodes field is nil, or an append whose base
+// is the field itself, nil or a newly made slice - never a parameter or another
+// caller-visible slice.
+func freshDeadList(r *engine.Run, rule string) {
+	n := 0
+	for _, f := range funcsOfPkg(r, pkgUtil) {
+		if len(f.Blocks) == 0 {
+			continue
+		}
+		o := ord{}
+		engine.Instrs(f, func(in ssa.Instruction) {
+			st, ok := in.(*ssa.Store)
+			if !ok {
+				return
+			}
+			fld := engine.FieldOf(st.Addr)
+			if fld == nil || fld.Name() != "deleteNodes" {
+				return
+			}
+			n++
+			good := false
+			var check func(v ssa.Value, depth int) bool
+			check = func(v ssa.Value, depth int) bool {
+				if depth > 4 {
+					return false
+				}
+				switch x := v.(type) {
+				case *ssa.Const:
+					return x.Value == nil
+				case *ssa.MakeSlice:
+					return true
+				case *ssa.Phi:
+					for _, e := range x.Edges {
+						if !check(e, depth+1) {
+							return false
+						}
+					}
+					return true
+				case *ssa.Call:
+					if b, ok := x.Call.Value.(*ssa.Builtin); ok && b.Name() == "append" {
+						base := x.Call.Args[0]
+						if bf := fieldLoadOf(base); bf != nil && bf.Name() == "deleteNodes" {
+							return true
+						}
+						return check(base, depth+1)
+					}
+				}
+				return false
+			}
+			good = check(st.Val, 0)
+			r.Check(good, rule, o.next(fn(f)+"|dead list"), r.P.Pos(st.Pos()), "the dead list is nil, newly made, or an append onto the trie's own list",
+				"the trie keeps a caller's slice as its dead-node list: a caller that reuses the slice for the next state change rewrites the dead set recorded for this one, so the round's record names nodes that are live and the prune deletes them")
+		})
+	}
+	if n < 1 {
+		r.Anchor(rule, fmt.Errorf("unresolved anchor: no store into deleteNodes found"))
 	}
 }
